@@ -406,8 +406,11 @@ func commitWorker(
 		)
 		// See if we can recover a child artifact from an existing directory
 		// manifest. This enables skipping up-to-date artifacts.
+		// Only reuse it if the entry is still of the same kind: a file that
+		// became a directory (or vice versa) since the last commit is a new
+		// artifact.
 		childArt, ok := dirMan.Contents[path]
-		if !ok {
+		if !ok || childArt.IsDir != entry.IsDir() {
 			childArt = &artifact.Artifact{
 				Path:  path,
 				IsDir: entry.IsDir(),
